@@ -442,6 +442,31 @@ func elemType(t types.Type) types.Type {
 	return t
 }
 
+// addrIsWritten: the address (or a field / element address derived from it) is the target of a store.
+func addrIsWritten(v ssa.Value, depth int) bool {
+	refs := v.Referrers()
+	if refs == nil || depth > 3 {
+		return false
+	}
+	for _, r := range *refs {
+		switch u := r.(type) {
+		case *ssa.Store:
+			if u.Addr == v {
+				return true
+			}
+		case *ssa.FieldAddr:
+			if addrIsWritten(u, depth+1) {
+				return true
+			}
+		case *ssa.IndexAddr:
+			if addrIsWritten(u, depth+1) {
+				return true
+			}
+		}
+	}
+	return false
+}
+
 func (x *Exec) markReadOnly(st *State, c int) {
 	if st.readOnly == nil {
 		st.readOnly = map[int]bool{}
@@ -1104,9 +1129,9 @@ func (x *Exec) step(st *State, fr *Frame, in ssa.Instruction) {
 				fr.env[ins] = BytePtr{Val: &p, Index: idx}
 			} else {
 				x.boundsCheck(st, fr, idx, seqLen(p.T), ins.Pos())
-				if o, ok := fr.origin[ins.X]; ok {
-					// the slice was loaded from an addressable place and is still the value stored there: address the
-					// element in place, so that a store through it is not lost
+				if o, ok := fr.origin[ins.X]; ok && addrIsWritten(ins, 0) {
+					// the element is written through this address and the slice was loaded from an addressable place and is
+					// still the value stored there: address the element in place, so that the store is not lost
 					if cur, ok := x.load(st, o, nil).(TV); ok && cur.T == p.T {
 						fr.env[ins] = PtrV{Cell: o.Cell, Path: append(append([]PathElem(nil), o.Path...), PathElem{IsIndex: true, Index: idx})}
 						break
